@@ -7,7 +7,9 @@ from .. import chrun, framework, corpus
 from ..framework import Report
 
 HARNESS = os.path.join(framework.VERIF, "vf", "ch", "c18_harness.py")
-BROKEN = ["{ RdV = RsV +; }", "{ RdV = ; }", "{ if (RsV { RdV = 1; } }", "{ RdV = RsV $ RtV; }", "{ RdV = (RsV; }", "}{", ""]
+# failing inputs of both error classes the Earley parser raises (UnexpectedCharacters / UnexpectedEOF); "" is valid (empty body)
+BROKEN = ["{ RdV = RsV +; }", "{ RdV = ; }", "{ if (RsV { RdV = 1; } }", "{ RdV = RsV $ RtV; }", "{ RdV = (RsV; }", "}{", "",
+          "{ RdV = 1;", "{ RdV = (1 + ", "{ RdV = RsV +"]
 
 
 def near_miss(text, rng):
@@ -50,7 +52,7 @@ def _real_pool(rep, tier, rng):
         # two-part entries whose parts BOTH fail, with every ordered pair of failure kinds (the reported error is the first part's)
         for a_, ba in enumerate(BROKEN):
             for b_, bb in enumerate(BROKEN):
-                if a_ != b_ and (a_ + b_ + size) % 3 == 0:
+                if a_ != b_ and ((a_ + b_ + size) % 3 == 0 or (a_ < 7) != (b_ < 7)):
                     beh[f"bothbroken_{a_}_{b_}"] = [ba, bb]
         items = list(beh.items())
         rng.shuffle(items)
